@@ -382,6 +382,7 @@ func pathHash(c pathCase) uint64 {
 
 func init() {
 	replayRegistrars = append(replayRegistrars, func() {
+		registerReplay("C08/localfs", runLfsCase)
 		registerReplay("C08/exhaustive", func(c pathCase) *fail { return runPathCase(c, nil) })
 		registerReplay("C08/random", func(c pathCase) *fail { return runPathCase(c, nil) })
 	})
@@ -391,6 +392,39 @@ func TestC08(t *testing.T) {
 	h := begin(t, "C08")
 	defer h.Finish()
 	env := h.Env
+
+	// the path-based sample backend: renames with open and unopened fids on the
+	// renamed entries, their ancestors and their descendants
+	rapidCases(h, "localfs", env.PerShard(env.Pick(1600, 60000)), func(rt *rapid.T) lfsCase {
+		var c lfsCase
+		names := []string{"a", "b", "d", "f", "g", "h", "k", "n", "m"}
+		paths := []string{"a", "a/f", "a/g", "a/b", "a/b/h", "d", "d/k", "d/a", "d/a/f", "d/a/b/h", "a/d", "a/d/k", "b", "b/h", "n", "a/n"}
+		if rapid.Bool().Draw(rt, "preamble") {
+			// fids on a directory, on entries in it and below it (1..6)
+			for _, p := range []string{"a", "a/f", "a/b", "a/b/h", "d", "d/k"} {
+				c.Ops = append(c.Ops, lfsOp{Kind: "walk", Path: p})
+			}
+		}
+		for i := rapid.IntRange(3, 25).Draw(rt, "n"); i > 0; i-- {
+			op := lfsOp{Kind: rapid.SampledFrom([]string{"walk", "walk", "walk", "open", "open", "create", "mkdir", "renameat", "renameat", "renameat", "truncate", "truncate", "getattr", "getattr", "walkchild"}).Draw(rt, "kind"),
+				Fid: rapid.IntRange(0, 12).Draw(rt, "fid"), Fid2: rapid.IntRange(0, 12).Draw(rt, "fid2"),
+				Name: rapid.SampledFrom(names).Draw(rt, "name"), Nam2: rapid.SampledFrom(names).Draw(rt, "name2"), Path: rapid.SampledFrom(paths).Draw(rt, "path")}
+			c.Ops = append(c.Ops, op)
+		}
+		return c
+	}, func(c lfsCase) *fail {
+		renames, opens := 0, 0
+		for _, o := range c.Ops {
+			if o.Kind == "renameat" {
+				renames++
+			}
+			if o.Kind == "open" || o.Kind == "create" {
+				opens++
+			}
+		}
+		h.Case(evid.HashJSON(c), renames > 0 && opens > 0, "localfs")
+		return runLfsCase(c)
+	})
 
 	alpha := c08Alphabet()
 	enumerate := func(label string, setup, depth int, native bool, al []*refcodec.Msg) bool {
